@@ -373,7 +373,10 @@ def main():
                         checks = a.checks.split(",") if a.checks else meta(n)["checks"]
                         rec = {"generated": {k: tr[n][k] for k in ("refused", "changed", "hash")}, "checks": {}}
                         for c in checks:
-                            key = f"{lh}:{tr[n]['hash']}:{c}"
+                            # the refusals are part of the key: a table extractor that refuses falls back to a default value, so a
+                            # refused rewrite can have the same generated text as an accepted one
+                            rk = hashlib.sha256(json.dumps(sorted(tr[n]["refused"])).encode()).hexdigest()[:8]
+                            key = f"{lh}:{tr[n]['hash']}:{rk}:{c}"
                             if key not in cache:
                                 if cur != tr[n]["hash"]:
                                     # put this rewrite's generated files in place (refused targets are missing from them,
